@@ -463,8 +463,38 @@ impl Engine for TwinEngine {
                     // mostly the two smaller sizes; the large ones make every observation expensive
                     let ti = match case.hist.order_sel % 16 { 0 => 3, 1 => 2, x if x % 2 == 0 => 1, _ => 0 };
                     let target = T[ti] + [0usize, 1, 2][(case.hist.order_sel as usize >> 4) % 3] - 1;
-                    if s9 > 0 && target >= s9 {
+                    if s9 > 0 && target >= s9 + 16 {
                         let len = target - s9 + 9;
+                        // sweep the sizes around the boundary: whatever framing the file format
+                        // adds (block headers, trailers), one of these images hits the boundary
+                        for delta in -14i64..=14 {
+                            let l = (len as i64 + delta) as usize;
+                            let pad = Call::Put(v, (0..l).map(|i| (i as u8) | 1).collect());
+                            r.step(&pad);
+                            history.push(pad);
+                            if delta == 0 {
+                                continue; // the exact target is judged by the full twin run below
+                            }
+                            let e = TwinEngine { kind: TwinKind::SaveLoad };
+                            let sweep_fail = match e.make_twin(&r) {
+                                Err(f) => Some(f),
+                                Ok(g2) => match (try_observe(&*r.g, ObsLevel::BASIC), try_observe(&*g2, ObsLevel::BASIC)) {
+                                    (Ok(a), Ok(b)) => diff(&a, &b).map(|d| e.fail("twin.query_differs", 0, format!("size sweep: original vs twin: {d}"))),
+                                    _ => None,
+                                },
+                            };
+                            if let Some(f) = sweep_fail {
+                                let conc = TwinConcrete { cfg, history: history.clone(), continuation: vec![], mode: 0, order_sel: case.hist.order_sel };
+                                return CaseReport {
+                                    payload: Some(serde_json::to_value(&conc).unwrap()),
+                                    failure: Some(f),
+                                    events: vec!["split.size_sweep"],
+                                    evaluations: 1,
+                                    ..Default::default()
+                                };
+                            }
+                        }
+                        // back to the exact target for the full twin run
                         let pad = Call::Put(v, (0..len).map(|i| (i as u8) | 1).collect());
                         r.step(&pad);
                         history.push(pad);
